@@ -1,6 +1,7 @@
 import PPProofs.Lemmas.PRHeapDeep
 import PPProofs.Lemmas.PRHeapDeepMemo
 import PPProofs.Lemmas.PRHeapDeepMemoRel
+import PPProofs.Lemmas.PRHeapDeepMemoNames
 /-!
 # C11 — `ParseResults.deepcopy()` of NESTED groups, at every depth (heap model)
 
@@ -27,9 +28,8 @@ What is proved, for ALL heaps / objects / depths / mutation sequences:
 
 Not modelled here: container tokens (results.py:598-605: a `MutableMapping`/`Iterable` token is rebuilt, groups in it
 deep-copied) — `HVal` has scalars and references only.  For `copy.deepcopy`/pickle (section (5) below) separation
-and frames are proved (`copyModule_deep_fresh`, `copyModule_deep_frame`) and the list view (`copyModule_deep_as_list`);
-that the memoised copy shows the original's NAME view at every depth is not proved on the heap model (value level,
-one object: `PP.PR.pickle_roundtrip`; nested: the `copy-preserves` oracle of harness/props/c11.py).
+and frames are proved (`copyModule_deep_fresh`, `copyModule_deep_frame`), the list view (`copyModule_deep_as_list`)
+and both views (`copyModule_deep_views`).
 -/
 namespace PP.PRHeap
 
@@ -290,6 +290,20 @@ theorem copyModule_deep_as_list (f : Nat) (h : Heap α) (o : Nat) (hd : FD h.nex
   obtain ⟨_, r2, _⟩ := deepObjN_spec h.next h f ⟨h, [], []⟩ o hI0 hB0 hd
   exact ⟨m1.asList k o _ m2, fun y d hw => asListN_agree (fun i hi => r2.objs i hi) (fun i hi => r2.lists i hi) k d y hw⟩
 
+/-- **(5‴) BOTH views survive `copy.deepcopy` / pickle at every depth**: `dumpN` — tokens, names in order with all
+    occurrences (positions and values), list-all names, nested results expanded, to every observation depth `k` — of
+    the copy is that of the original.  (`as_list`, `as_dict`, `dump`, `keys`, `len` are functions of it.) -/
+theorem copyModule_deep_views (f : Nat) (h : Heap α) (o : Nat) (hd : FD h.next h f o) (k : Nat) :
+    dumpN k (copyModuleDeep f h o).1 (copyModuleDeep f h o).2 = dumpN k h o := by
+  have hI0 : Inv h.next (⟨h, [], []⟩ : DS α) :=
+    ⟨fun c hc => (by obtain ⟨_, hk⟩ := hc; cases hk), fun c hc => (by obtain ⟨_, hk⟩ := hc; cases hk)⟩
+  have hB0 : Below h.next h (⟨h, [], []⟩ : DS α).h := ⟨Nat.le_refl _, fun _ _ => ⟨rfl, rfl, rfl, rfl⟩⟩
+  have hM0 : MRel h.next h (⟨h, [], []⟩ : DS α) := ⟨fun _ _ _ hk => (by cases hk), fun _ _ hk => (by cases hk)⟩
+  have hD0 : DRel h.next h (⟨h, [], []⟩ : DS α) (fun _ => False) :=
+    ⟨fun _ _ hk => (by cases hk), fun _ _ hk => (by cases hk)⟩
+  obtain ⟨m1, m2⟩ := deepObjN_rel h.next h f ⟨h, [], []⟩ o hI0 hB0 hd hM0
+  exact (deepObjN_drel h.next h f (fun _ => False) ⟨h, [], []⟩ o hI0 hB0 hd hM0 hD0).dump m1 k o _ m2
+
 /-- **(5′) frames, names included**: after `c = copy.deepcopy(r)` (or a pickle round trip), any sequence of own
     mutations — tokens or names — of any object reachable from `c` by any route leaves the view (tokens, names,
     list-all names) of every well-formed object of the original heap unchanged; and any sequence of own mutations
@@ -350,6 +364,11 @@ example :
     (view (copyModuleDeep 2 exHeap 5).1 10).1 = [.atom "a"] ∧
     -- `c['g'].append('z')` is seen through `c[0]`, not by the original
     (view (mutate (copyModuleDeep 2 exHeap 5).1 10 (.append (.atom "z"))) 2).1 = [.atom "a"] := by decide +kernel
+
+/-- … and both show `[['a'], 'b']`, `g: [(0, ['a'])]`, `x: [(1, 'b')]` -/
+example : dumpN 3 (copyModuleDeep 2 exHeap 5).1 15 = dumpN 3 exHeap 5 ∧
+    dumpN 3 exHeap 5 = [.lb, .lb, .a "a", .rb, .a "b", .key "g", .pos 0, .lb, .a "a", .rb, .key "x", .pos 1, .a "b", .rb] := by
+  decide +kernel
 
 /-! ### non-vacuity: concrete nested instances, computed -/
 
